@@ -203,3 +203,101 @@ def v4(addr: str, port: int) -> tuple[Any, ...]:
 
 def v6(addr: str, port: int) -> tuple[Any, ...]:
     return (_real_socket.AF_INET6, _real_socket.SOCK_STREAM, _real_socket.IPPROTO_TCP, "", (addr, port, 0, 0))
+
+
+# --------------------------------------------------------------------------------------------------
+# zeroconf fakes (patched into aioesphomeapi.zeroconf / aioesphomeapi.host_resolver by the harness)
+# --------------------------------------------------------------------------------------------------
+class ZcLog:
+    """Shared record of everything that happened to fake zeroconf objects in one world."""
+
+    def __init__(self) -> None:
+        self.events: list[tuple[Any, ...]] = []
+        self.instances: list["FakeAsyncZeroconf"] = []
+        self.create_error: Exception | None = None  # raise from FakeAsyncZeroconf() (library-created only)
+        self.request_script: Callable[["FakeServiceInfo", Any, int], Any] | None = None
+        self.requests: list[tuple[str, str]] = []
+        self.now: Callable[[], float] = lambda: 0.0
+
+
+class FakeZeroconf:
+    """The synchronous ``Zeroconf`` object: only the listener registry is used by the library."""
+
+    def __init__(self, log: ZcLog, label: str = "zc") -> None:
+        self.zlog = log
+        self.label = label
+        self.listeners: list[Any] = []
+        self.closed = False
+
+    def async_add_listener(self, listener: Any, question: Any) -> None:
+        self.listeners.append(listener)
+        self.zlog.events.append((self.zlog.now(), "add_listener", self.label))
+
+    def async_remove_listener(self, listener: Any) -> None:
+        if listener in self.listeners:
+            self.listeners.remove(listener)
+        self.zlog.events.append((self.zlog.now(), "remove_listener", self.label))
+
+    def close(self) -> None:
+        self.closed = True
+        self.zlog.events.append((self.zlog.now(), "sync_close", self.label))
+
+
+def make_zeroconf_fakes(log: ZcLog) -> tuple[type, type, type]:
+    """Classes bound to one world's log: (FakeZeroconfClass, FakeAsyncZeroconfClass, FakeServiceInfoClass)."""
+
+    class _Zeroconf(FakeZeroconf):
+        def __init__(self, label: str = "app-sync") -> None:
+            super().__init__(log, label)
+
+    class _AsyncZeroconf:
+        def __init__(self, zc: Any = None, label: str | None = None, **kw: Any) -> None:
+            if zc is None and label is None and log.create_error is not None:
+                raise log.create_error
+            self.supplied_zc = zc is not None
+            self.label = label or ("wrap:" + zc.label if zc is not None else f"lib{len(log.instances)}")
+            self.zeroconf = zc if zc is not None else _Zeroconf(self.label)
+            self.closed = 0
+            log.instances.append(self)  # type: ignore[arg-type]
+            log.events.append((log.now(), "create", self.label))
+
+        async def async_close(self) -> None:
+            self.closed += 1
+            self.zeroconf.closed = True
+            log.events.append((log.now(), "async_close", self.label))
+
+    class _ServiceInfo:
+        def __init__(self, type_: str, name: str, server: str | None = None, **kw: Any) -> None:
+            self.type = type_
+            self.name = name
+            self.server = server
+            self.v4: list[str] = []
+            self.v6: list[str] = []
+
+        async def async_request(self, zc: Any, timeout: int, **kw: Any) -> bool:
+            log.requests.append((self.name, getattr(zc, "label", "?")))
+            log.events.append((log.now(), "request", self.name, getattr(zc, "label", "?")))
+            if log.request_script is None:
+                raise HarnessError(f"unexpected mDNS request for {self.name}")
+            ans = log.request_script(self, zc, timeout)
+            if hasattr(ans, "__await__"):
+                ans = await ans
+            if isinstance(ans, BaseException):
+                raise ans
+            return bool(ans)
+
+        def ip_addresses_by_version(self, version: Any) -> list[Any]:
+            from ipaddress import ip_address
+
+            name = getattr(version, "name", str(version))
+            if name == "V6Only":
+                return [ip_address(a) for a in self.v6]
+            if name == "V4Only":
+                return [ip_address(a) for a in self.v4]
+            return [ip_address(a) for a in self.v6 + self.v4]
+
+    return _Zeroconf, _AsyncZeroconf, _ServiceInfo
+
+
+FakeAsyncZeroconf = Any
+FakeServiceInfo = Any
